@@ -16,6 +16,8 @@ ASSUMPTIONS = [
     "rank and different identity are exercised (EXISTS keeps the stored pointer)",
     "64-bit pointers/size_t (static assert in the driver); iterator indexes are uint16_t and the sources statically reject "
     "LEAF_VALS > 65535 (fix 627c158, checked by C02), so the model's untruncated indexes are exact",
+    "elements are opaque pointers: in about half of the histories one element at a time is represented by the NULL pointer in "
+    "the C driver (op 'I'); the model is unchanged (elements are abstract)",
     "comparator logs are compared on NDEBUG builds (asserts call the comparator); assert-enabled builds of page "
     "sizes 64 and 128 run the same cases and must agree on everything but comparator counts",
     "histories with allocation failure scripts are checked against the model only (L2); their spec line is '*' "
@@ -45,10 +47,14 @@ def gen(ctx, seed, tier):
         for _ in range(n):
             # 40% of the histories also carry the allocation trace (flag 'a': every page obtained / released, by request
             # serial, compared with the instrumented model BTreeAllocModel), with allocation scripts in a third of them
+            # in half of the histories some element is the NULL pointer (op 'I': elements are opaque void*, so NULL is a
+            # legitimate element; at most one at a time, wherever the random history puts it: root leaf, mid-leaf, first
+            # slot, separator of an internal page); clear/free must still destroy it exactly once
+            null_p = r.choice([0.0, 0.0, 0.1, 0.3])
             if r.random() < 0.4:
-                cases.append(bt.gen_history(r, page, tier, flags="a", oracle_p=0.35).line())
+                cases.append(bt.gen_history(r, page, tier, flags="a", oracle_p=0.35, null_p=null_p).line())
             else:
-                cases.append(bt.gen_history(r, page, tier).line())
+                cases.append(bt.gen_history(r, page, tier, null_p=null_p).line())
     if seed == ctx.seed:
         # a few histories AT the capacity of page size 64 (fix 1a03612: insert is refused with OVERFLOW, nothing else
         # changes); they fail the spec's status clause and are classified as the known finding C01-MAXHEIGHT when the
@@ -226,5 +232,6 @@ def stats(cases, impl):
     return {"ops": bt.op_histogram(cases), "statuses": bt.status_histogram(impl),
             "cases_by_page_and_depth": bt.depth_histogram(cases, impl),
             "histories_with_allocation_script": sum(1 for c in cases if " O" in c),
+            "histories_with_null_element": sum(1 for c in cases if " I" in c),
             "histories_with_allocation_trace": sum(1 for c in cases if "a" in c.split()[1]),
             "allocation_events_compared": sum(l.count(":a") for l in impl if " || " in l)}
